@@ -124,7 +124,12 @@ func (r *envelopeReader) Unmarshal(message any) *Error {
 		(env.Flags == 0 || env.Flags == flagEnvelopeCompressed) &&
 		env.Data.Len() == 0:
 		// This is a standard message (because none of the top 7 bits are set) and
-		// there's no data, so the zero value of the message is correct.
+		// there's no data, so the zero value of the message is correct. Streams
+		// reuse the same message for every Receive, so we need to clear whatever
+		// the previous message left behind.
+		if resetter, ok := message.(interface{ Reset() }); ok {
+			resetter.Reset()
+		}
 		return nil
 	case err != nil && errors.Is(err, io.EOF):
 		// The stream has ended. Propagate the EOF to the caller.
